@@ -28,7 +28,7 @@
 ! Functions are designed to be compiled with f2py and called from Python
       subroutine ampld(axi, rat, lam, mrr, mri, eps, np, ndgs, 
      &                      alpha, beta, thet0, thet, phi0, phi, nang,
-     &                      s11, s12, s21, s22)
+     &                      s11, s12, s21, s22, ierr)
 c parameters:
       integer, parameter :: dp = selected_real_kind(15, 307)
 c variables:
@@ -38,11 +38,22 @@ c variables:
       real(kind=dp), intent(in) :: axi, rat, alpha, beta, thet0, phi0
       real(kind=dp), dimension(nang),intent(in) :: thet, phi
       complex(kind=dp), dimension(nang),intent(out) :: s11,s12,s21,s22
+c ierr = 1 if the T-matrix computation did not converge
+      integer, intent(out) :: ierr
 
 C Call amp_scat_matrix on the first angle to calc the T-matrix
       call amp_scat_matrix (axi,rat,lam,mrr,mri,eps,np,ndgs,alpha,
      &                      beta,thet0,thet(1),phi0,phi(1),
      &                      s11(1),s12(1),s21(1),s22(1),maxi)
+      ierr = 0
+      if (maxi < 0) then
+         ierr = 1
+         s11 = 0
+         s12 = 0
+         s21 = 0
+         s22 = 0
+         return
+      end if
 C loop over the rest of the angles. T-matrix is a global (common)
       if (nang > 1) then
          do j=2, nang
